@@ -1,208 +1,212 @@
 (* C05 — lint results depend only on text, language, dictionary and configuration.
    This file pins the statements; it contains nothing but `exact` (+ vm_compute examples).
-   Model: Model/Cache.v (LintGroup::lint's chunk cache, SpellCheck's word cache, any eviction).  The statements
-   quantify over every rule set (pattern_rel, struct_pre, struct_post), every suggestion function, every
-   configuration type and hash, every history and every eviction schedule. *)
+   Model: Model/Cache.v (LintGroup::lint's chunk cache with the key (characters, config hash, token hash) of
+   commit a050122, SpellCheck's word cache, any eviction).  The statements quantify over every rule set
+   (pattern_rel, struct_pre, struct_post), every suggestion function, every configuration / token-kind type and
+   hash, every history and every eviction schedule. *)
 Require Import Base Cache CacheProofs.
 
+(* `chunk.span()` (minimum and maximum over the starts and ends of the chunk's tokens, Span::new) never panics *)
+Theorem C05_hull_total : forall (kind : Type) (ts : list (tok kind)), exists o : option span, hull_of ts = Ok o.
+Proof. exact code_hull_total. Qed.
+Check C05_hull_total : forall (kind : Type) (ts : list (tok kind)), exists o : option span, hull_of ts = Ok o.
+Print Assumptions C05_hull_total.
+
+(* the chunks LintGroup::lint derives from a source and the token slices of iter_chunks() (hull, then
+   get_span_content) are well-formed: no token starts or ends before its chunk's start — the hypothesis
+   `hist_wf` of the theorems below holds by construction for every document the code can see, so the checked
+   subtractions that feed the token hash never underflow *)
+Theorem C05_doc_of_wf : forall (kind : Type) (src : text) (chunks : list (list (tok kind))) (miss : list (span * text)) (rest : N) (d : doc kind),
+  doc_of src chunks miss rest = Ok d -> doc_wf d.
+Proof. exact code_doc_of_wf. Qed.
+Check C05_doc_of_wf : forall (kind : Type) (src : text) (chunks : list (list (tok kind))) (miss : list (span * text)) (rest : N) (d : doc kind),
+  doc_of src chunks miss rest = Ok d -> doc_wf d.
+Print Assumptions C05_doc_of_wf.
+
 (* for EVERY history (set-config | lint | evict, with an adversarial eviction schedule inside every lint) on a
-   linter that started with empty caches: no step panics; every entry (chars, hash) -> v of the chunk cache
-   is the uncached result of the pattern rules on a chunk of that history with these characters under a
-   configuration with this hash (for SOME tokenisation t — the key does not record which); every entry of
-   the spelling cache is the uncached suggestion list of its word *)
-Theorem C05_cache_inv : forall (cfg toks : Type) (cfg_hash : cfg -> N)
-    (pattern_rel : text -> toks -> cfg -> list clint)
-    (struct_pre struct_post : cfg -> doc toks -> list clint)
+   linter that started with empty caches: no step panics (neither the subtractions of the token hash nor the
+   pull_by of a miss underflow); every entry (chars, config hash, token hash) -> v of the chunk cache is the
+   uncached result of the pattern rules on a chunk of that history with these characters, a tokenisation
+   with this token hash and a configuration with this hash; every entry of the spelling cache is the
+   uncached suggestion list of its word *)
+Theorem C05_cache_inv : forall (cfg kind : Type) (cfg_hash : cfg -> N) (tok_hash : list (tok kind) -> N)
+    (pattern_rel : text -> list (tok kind) -> cfg -> list clint)
+    (struct_pre struct_post : cfg -> doc kind -> list clint)
     (spell_on : cfg -> bool) (suggest : text -> list text)
     (spell_mk : text -> span -> list text -> clint)
-    (h : list (op cfg toks (text * N))) (c0 : cfg),
-  exists (st : state cfg (text * N)) (outs : list (list clint)),
-    run_hist cfg toks (text * N) code_key_eqb (code_key cfg_hash) pattern_rel struct_pre struct_post spell_on suggest spell_mk h (fresh c0) = Ok (st, outs) /\
-    (forall (chars : text) (hsh : N) (v : list clint),
-       lookup code_key_eqb (chars, hsh) (st_cache st) = Some v ->
-       exists (t : toks) (c : cfg),
-         In (chars, t, c) (hist_triples cfg toks (text * N) h c0) /\ cfg_hash c = hsh /\ v = pattern_rel chars t c) /\
+    (h : list (op cfg kind (text * N * N))) (c0 : cfg),
+  hist_wf cfg kind (text * N * N) h ->
+  exists (st : state cfg (text * N * N)) (outs : list (list clint)),
+    run_hist cfg kind (text * N * N) code_key_eqb (code_key cfg_hash tok_hash) pattern_rel struct_pre struct_post spell_on suggest spell_mk h (fresh c0) = Ok (st, outs) /\
+    (forall (chars : text) (hc ht : N) (v : list clint),
+       lookup code_key_eqb (chars, hc, ht) (st_cache st) = Some v ->
+       exists (t : list (tok kind)) (c : cfg),
+         In (chars, t, c) (hist_triples cfg kind (text * N * N) h c0) /\ cfg_hash c = hc /\ tok_hash t = ht /\ v = pattern_rel chars t c) /\
     (forall (w : text) (v : list text), lookup text_eqb w (st_spell st) = Some v -> v = suggest w).
 Proof. exact code_cache_inv. Qed.
-Check C05_cache_inv : forall (cfg toks : Type) (cfg_hash : cfg -> N)
-    (pattern_rel : text -> toks -> cfg -> list clint)
-    (struct_pre struct_post : cfg -> doc toks -> list clint)
+Check C05_cache_inv : forall (cfg kind : Type) (cfg_hash : cfg -> N) (tok_hash : list (tok kind) -> N)
+    (pattern_rel : text -> list (tok kind) -> cfg -> list clint)
+    (struct_pre struct_post : cfg -> doc kind -> list clint)
     (spell_on : cfg -> bool) (suggest : text -> list text)
     (spell_mk : text -> span -> list text -> clint)
-    (h : list (op cfg toks (text * N))) (c0 : cfg),
-  exists (st : state cfg (text * N)) (outs : list (list clint)),
-    run_hist cfg toks (text * N) code_key_eqb (code_key cfg_hash) pattern_rel struct_pre struct_post spell_on suggest spell_mk h (fresh c0) = Ok (st, outs) /\
-    (forall (chars : text) (hsh : N) (v : list clint),
-       lookup code_key_eqb (chars, hsh) (st_cache st) = Some v ->
-       exists (t : toks) (c : cfg),
-         In (chars, t, c) (hist_triples cfg toks (text * N) h c0) /\ cfg_hash c = hsh /\ v = pattern_rel chars t c) /\
+    (h : list (op cfg kind (text * N * N))) (c0 : cfg),
+  hist_wf cfg kind (text * N * N) h ->
+  exists (st : state cfg (text * N * N)) (outs : list (list clint)),
+    run_hist cfg kind (text * N * N) code_key_eqb (code_key cfg_hash tok_hash) pattern_rel struct_pre struct_post spell_on suggest spell_mk h (fresh c0) = Ok (st, outs) /\
+    (forall (chars : text) (hc ht : N) (v : list clint),
+       lookup code_key_eqb (chars, hc, ht) (st_cache st) = Some v ->
+       exists (t : list (tok kind)) (c : cfg),
+         In (chars, t, c) (hist_triples cfg kind (text * N * N) h c0) /\ cfg_hash c = hc /\ tok_hash t = ht /\ v = pattern_rel chars t c) /\
     (forall (w : text) (v : list text), lookup text_eqb w (st_spell st) = Some v -> v = suggest w).
 Print Assumptions C05_cache_inv.
 
-(* if, on the chunks and configurations the history touches, the configuration hash is injective and the
-   relative pattern lints of a chunk do not depend on its tokenisation (H_chunk_fun), then for every history
-   and every eviction schedule each Lint step answers exactly what the cache-free specification answers —
-   and so does a freshly built linter asked at that moment (fresh_hist): caches are unobservable.  The
-   spelling cache needs no hypothesis (its key is the whole argument). *)
-Theorem C05_refinement : forall (cfg toks : Type) (cfg_hash : cfg -> N)
-    (pattern_rel : text -> toks -> cfg -> list clint)
-    (struct_pre struct_post : cfg -> doc toks -> list clint)
+(* THE refinement, for the key the code builds since commit a050122: if, on the chunks and configurations the
+   history touches, the configuration hash and the token hash are injective (64-bit keyed hashes; monitored
+   on the hasher INPUT by the harness), then for every history — any mixture of languages / tokenisations of
+   the same characters on one linter — and every eviction schedule each Lint step answers exactly what the
+   cache-free specification answers, and so does a freshly built linter asked at that moment (fresh_hist):
+   the caches are unobservable.  No hypothesis about the rules (H_chunk_fun is gone); the spelling cache
+   needs no hypothesis at all (its key is the whole argument). *)
+Theorem C05_refinement : forall (cfg kind : Type) (cfg_hash : cfg -> N) (tok_hash : list (tok kind) -> N)
+    (pattern_rel : text -> list (tok kind) -> cfg -> list clint)
+    (struct_pre struct_post : cfg -> doc kind -> list clint)
     (spell_on : cfg -> bool) (suggest : text -> list text)
     (spell_mk : text -> span -> list text -> clint)
-    (h : list (op cfg toks (text * N))) (c0 : cfg),
-  hash_inj_on cfg toks cfg_hash (hist_triples cfg toks (text * N) h c0) ->
-  chunk_fun_on cfg toks pattern_rel (hist_triples cfg toks (text * N) h c0) ->
-  exists st : state cfg (text * N),
-    run_hist cfg toks (text * N) code_key_eqb (code_key cfg_hash) pattern_rel struct_pre struct_post spell_on suggest spell_mk h (fresh c0) = Ok (st, spec_hist cfg toks (text * N) pattern_rel struct_pre struct_post spell_on suggest spell_mk h c0) /\
-    fresh_hist cfg toks (text * N) code_key_eqb (code_key cfg_hash) pattern_rel struct_pre struct_post spell_on suggest spell_mk h c0 = map Ok (spec_hist cfg toks (text * N) pattern_rel struct_pre struct_post spell_on suggest spell_mk h c0).
+    (h : list (op cfg kind (text * N * N))) (c0 : cfg),
+  hist_wf cfg kind (text * N * N) h ->
+  hash_inj_on cfg kind cfg_hash (hist_triples cfg kind (text * N * N) h c0) ->
+  tok_hash_inj_on cfg kind tok_hash (hist_triples cfg kind (text * N * N) h c0) ->
+  exists st : state cfg (text * N * N),
+    run_hist cfg kind (text * N * N) code_key_eqb (code_key cfg_hash tok_hash) pattern_rel struct_pre struct_post spell_on suggest spell_mk h (fresh c0) = Ok (st, spec_hist cfg kind (text * N * N) pattern_rel struct_pre struct_post spell_on suggest spell_mk h c0) /\
+    fresh_hist cfg kind (text * N * N) code_key_eqb (code_key cfg_hash tok_hash) pattern_rel struct_pre struct_post spell_on suggest spell_mk h c0 = map Ok (spec_hist cfg kind (text * N * N) pattern_rel struct_pre struct_post spell_on suggest spell_mk h c0).
 Proof. exact code_refinement. Qed.
-Check C05_refinement : forall (cfg toks : Type) (cfg_hash : cfg -> N)
-    (pattern_rel : text -> toks -> cfg -> list clint)
-    (struct_pre struct_post : cfg -> doc toks -> list clint)
+Check C05_refinement : forall (cfg kind : Type) (cfg_hash : cfg -> N) (tok_hash : list (tok kind) -> N)
+    (pattern_rel : text -> list (tok kind) -> cfg -> list clint)
+    (struct_pre struct_post : cfg -> doc kind -> list clint)
     (spell_on : cfg -> bool) (suggest : text -> list text)
     (spell_mk : text -> span -> list text -> clint)
-    (h : list (op cfg toks (text * N))) (c0 : cfg),
-  hash_inj_on cfg toks cfg_hash (hist_triples cfg toks (text * N) h c0) ->
-  chunk_fun_on cfg toks pattern_rel (hist_triples cfg toks (text * N) h c0) ->
-  exists st : state cfg (text * N),
-    run_hist cfg toks (text * N) code_key_eqb (code_key cfg_hash) pattern_rel struct_pre struct_post spell_on suggest spell_mk h (fresh c0) = Ok (st, spec_hist cfg toks (text * N) pattern_rel struct_pre struct_post spell_on suggest spell_mk h c0) /\
-    fresh_hist cfg toks (text * N) code_key_eqb (code_key cfg_hash) pattern_rel struct_pre struct_post spell_on suggest spell_mk h c0 = map Ok (spec_hist cfg toks (text * N) pattern_rel struct_pre struct_post spell_on suggest spell_mk h c0).
+    (h : list (op cfg kind (text * N * N))) (c0 : cfg),
+  hist_wf cfg kind (text * N * N) h ->
+  hash_inj_on cfg kind cfg_hash (hist_triples cfg kind (text * N * N) h c0) ->
+  tok_hash_inj_on cfg kind tok_hash (hist_triples cfg kind (text * N * N) h c0) ->
+  exists st : state cfg (text * N * N),
+    run_hist cfg kind (text * N * N) code_key_eqb (code_key cfg_hash tok_hash) pattern_rel struct_pre struct_post spell_on suggest spell_mk h (fresh c0) = Ok (st, spec_hist cfg kind (text * N * N) pattern_rel struct_pre struct_post spell_on suggest spell_mk h c0) /\
+    fresh_hist cfg kind (text * N * N) code_key_eqb (code_key cfg_hash tok_hash) pattern_rel struct_pre struct_post spell_on suggest spell_mk h c0 = map Ok (spec_hist cfg kind (text * N * N) pattern_rel struct_pre struct_post spell_on suggest spell_mk h c0).
 Print Assumptions C05_refinement.
 
-(* H_chunk_fun is necessary: two tokenisations of the same characters with different pattern lints give a
-   history with two Lint steps on which the reused linter and a fresh linter disagree (finding F11 is an
-   instance: plain-text vs Markdown tokens of a clause containing inline code) *)
-Theorem C05_needs_chunk_fun : forall (cfg toks : Type) (cfg_hash : cfg -> N)
-    (pattern_rel : text -> toks -> cfg -> list clint)
-    (struct_pre struct_post : cfg -> doc toks -> list clint)
-    (spell_on : cfg -> bool) (suggest : text -> list text)
-    (spell_mk : text -> span -> list text -> clint)
-    (ch : text) (t1 t2 : toks) (c c0 : cfg),
-  pattern_rel ch t1 c <> pattern_rel ch t2 c ->
-  let h := [SetCfg c; Lint (one_chunk toks ch t1) [] []; SetCfg c; Lint (one_chunk toks ch t2) [] []] in
-  exists (st : state cfg (text * N)) (o1 reused fresh_out : list clint),
-    run_hist cfg toks (text * N) code_key_eqb (code_key cfg_hash) pattern_rel struct_pre struct_post spell_on suggest spell_mk h (fresh c0) = Ok (st, [o1; reused]) /\
-    fresh_hist cfg toks (text * N) code_key_eqb (code_key cfg_hash) pattern_rel struct_pre struct_post spell_on suggest spell_mk h c0 = [Ok o1; Ok fresh_out] /\
-    reused <> fresh_out.
-Proof. exact code_needs_chunk_fun. Qed.
-Check C05_needs_chunk_fun : forall (cfg toks : Type) (cfg_hash : cfg -> N)
-    (pattern_rel : text -> toks -> cfg -> list clint)
-    (struct_pre struct_post : cfg -> doc toks -> list clint)
-    (spell_on : cfg -> bool) (suggest : text -> list text)
-    (spell_mk : text -> span -> list text -> clint)
-    (ch : text) (t1 t2 : toks) (c c0 : cfg),
-  pattern_rel ch t1 c <> pattern_rel ch t2 c ->
-  let h := [SetCfg c; Lint (one_chunk toks ch t1) [] []; SetCfg c; Lint (one_chunk toks ch t2) [] []] in
-  exists (st : state cfg (text * N)) (o1 reused fresh_out : list clint),
-    run_hist cfg toks (text * N) code_key_eqb (code_key cfg_hash) pattern_rel struct_pre struct_post spell_on suggest spell_mk h (fresh c0) = Ok (st, [o1; reused]) /\
-    fresh_hist cfg toks (text * N) code_key_eqb (code_key cfg_hash) pattern_rel struct_pre struct_post spell_on suggest spell_mk h c0 = [Ok o1; Ok fresh_out] /\
-    reused <> fresh_out.
-Print Assumptions C05_needs_chunk_fun.
-
-(* configuration-hash injectivity is an explicit hypothesis (monitored by the harness on the bytes the Hash
-   impl feeds the hasher): together with H_chunk_fun it makes the code's key determine the cached value *)
-Theorem C05_cfg_hash : forall (cfg toks : Type) (cfg_hash : cfg -> N)
-    (pattern_rel : text -> toks -> cfg -> list clint) (U : list (text * toks * cfg)),
-  hash_inj_on cfg toks cfg_hash U -> chunk_fun_on cfg toks pattern_rel U ->
-  key_det cfg toks (text * N) (code_key cfg_hash) pattern_rel U.
+(* injectivity of the two hashes makes the code's key determine the cached value (for ANY rule set) *)
+Theorem C05_key_det : forall (cfg kind : Type) (cfg_hash : cfg -> N) (tok_hash : list (tok kind) -> N)
+    (pattern_rel : text -> list (tok kind) -> cfg -> list clint) (U : list (text * list (tok kind) * cfg)),
+  hash_inj_on cfg kind cfg_hash U -> tok_hash_inj_on cfg kind tok_hash U ->
+  key_det cfg kind (text * N * N) (code_key cfg_hash tok_hash) pattern_rel U.
 Proof. exact code_key_det. Qed.
-Check C05_cfg_hash : forall (cfg toks : Type) (cfg_hash : cfg -> N)
-    (pattern_rel : text -> toks -> cfg -> list clint) (U : list (text * toks * cfg)),
-  hash_inj_on cfg toks cfg_hash U -> chunk_fun_on cfg toks pattern_rel U ->
-  key_det cfg toks (text * N) (code_key cfg_hash) pattern_rel U.
-Print Assumptions C05_cfg_hash.
+Check C05_key_det : forall (cfg kind : Type) (cfg_hash : cfg -> N) (tok_hash : list (tok kind) -> N)
+    (pattern_rel : text -> list (tok kind) -> cfg -> list clint) (U : list (text * list (tok kind) * cfg)),
+  hash_inj_on cfg kind cfg_hash U -> tok_hash_inj_on cfg kind tok_hash U ->
+  key_det cfg kind (text * N * N) (code_key cfg_hash tok_hash) pattern_rel U.
+Print Assumptions C05_key_det.
 
-(* ... and it is necessary: two configurations with the same hash and different pattern lints on some chunk
-   make the toggle observable *)
-Theorem C05_cfg_hash_needed : forall (cfg toks : Type) (cfg_hash : cfg -> N)
-    (pattern_rel : text -> toks -> cfg -> list clint)
-    (struct_pre struct_post : cfg -> doc toks -> list clint)
+(* ... and each injectivity hypothesis is necessary: two configurations with the same hash and different
+   pattern lints on some chunk make the toggle observable *)
+Theorem C05_cfg_hash_needed : forall (cfg kind : Type) (cfg_hash : cfg -> N) (tok_hash : list (tok kind) -> N)
+    (pattern_rel : text -> list (tok kind) -> cfg -> list clint)
+    (struct_pre struct_post : cfg -> doc kind -> list clint)
     (spell_on : cfg -> bool) (suggest : text -> list text)
     (spell_mk : text -> span -> list text -> clint)
-    (ch : text) (t : toks) (c1 c2 c0 : cfg),
+    (ch : text) (t : list (tok kind)) (c1 c2 c0 : cfg),
   cfg_hash c1 = cfg_hash c2 -> pattern_rel ch t c1 <> pattern_rel ch t c2 ->
-  let h := [SetCfg c1; Lint (one_chunk toks ch t) [] []; SetCfg c2; Lint (one_chunk toks ch t) [] []] in
-  exists (st : state cfg (text * N)) (o1 reused fresh_out : list clint),
-    run_hist cfg toks (text * N) code_key_eqb (code_key cfg_hash) pattern_rel struct_pre struct_post spell_on suggest spell_mk h (fresh c0) = Ok (st, [o1; reused]) /\
-    fresh_hist cfg toks (text * N) code_key_eqb (code_key cfg_hash) pattern_rel struct_pre struct_post spell_on suggest spell_mk h c0 = [Ok o1; Ok fresh_out] /\
+  let h := [SetCfg c1; Lint (one_chunk kind ch t) [] []; SetCfg c2; Lint (one_chunk kind ch t) [] []] in
+  exists (st : state cfg (text * N * N)) (o1 reused fresh_out : list clint),
+    run_hist cfg kind (text * N * N) code_key_eqb (code_key cfg_hash tok_hash) pattern_rel struct_pre struct_post spell_on suggest spell_mk h (fresh c0) = Ok (st, [o1; reused]) /\
+    fresh_hist cfg kind (text * N * N) code_key_eqb (code_key cfg_hash tok_hash) pattern_rel struct_pre struct_post spell_on suggest spell_mk h c0 = [Ok o1; Ok fresh_out] /\
     reused <> fresh_out.
 Proof. exact code_needs_cfg_hash. Qed.
-Check C05_cfg_hash_needed : forall (cfg toks : Type) (cfg_hash : cfg -> N)
-    (pattern_rel : text -> toks -> cfg -> list clint)
-    (struct_pre struct_post : cfg -> doc toks -> list clint)
+Check C05_cfg_hash_needed : forall (cfg kind : Type) (cfg_hash : cfg -> N) (tok_hash : list (tok kind) -> N)
+    (pattern_rel : text -> list (tok kind) -> cfg -> list clint)
+    (struct_pre struct_post : cfg -> doc kind -> list clint)
     (spell_on : cfg -> bool) (suggest : text -> list text)
     (spell_mk : text -> span -> list text -> clint)
-    (ch : text) (t : toks) (c1 c2 c0 : cfg),
+    (ch : text) (t : list (tok kind)) (c1 c2 c0 : cfg),
   cfg_hash c1 = cfg_hash c2 -> pattern_rel ch t c1 <> pattern_rel ch t c2 ->
-  let h := [SetCfg c1; Lint (one_chunk toks ch t) [] []; SetCfg c2; Lint (one_chunk toks ch t) [] []] in
-  exists (st : state cfg (text * N)) (o1 reused fresh_out : list clint),
-    run_hist cfg toks (text * N) code_key_eqb (code_key cfg_hash) pattern_rel struct_pre struct_post spell_on suggest spell_mk h (fresh c0) = Ok (st, [o1; reused]) /\
-    fresh_hist cfg toks (text * N) code_key_eqb (code_key cfg_hash) pattern_rel struct_pre struct_post spell_on suggest spell_mk h c0 = [Ok o1; Ok fresh_out] /\
+  let h := [SetCfg c1; Lint (one_chunk kind ch t) [] []; SetCfg c2; Lint (one_chunk kind ch t) [] []] in
+  exists (st : state cfg (text * N * N)) (o1 reused fresh_out : list clint),
+    run_hist cfg kind (text * N * N) code_key_eqb (code_key cfg_hash tok_hash) pattern_rel struct_pre struct_post spell_on suggest spell_mk h (fresh c0) = Ok (st, [o1; reused]) /\
+    fresh_hist cfg kind (text * N * N) code_key_eqb (code_key cfg_hash tok_hash) pattern_rel struct_pre struct_post spell_on suggest spell_mk h c0 = [Ok o1; Ok fresh_out] /\
     reused <> fresh_out.
 Print Assumptions C05_cfg_hash_needed.
 
-(* the key proposed in fixes/F11.diff — (chars, hash cfg, hash of the chunk's token kinds and relative
-   spans): H_chunk_fun is no longer a hypothesis, only injectivity of the two hashes on what occurs *)
-Theorem C05_fixed_key_refinement : forall (cfg toks : Type) (cfg_hash : cfg -> N)
-    (pattern_rel : text -> toks -> cfg -> list clint)
-    (struct_pre struct_post : cfg -> doc toks -> list clint)
+(* two tokenisations of the same characters with the same token hash and different pattern lints make the
+   cache observable in two steps (what finding F11 was, when the key had no token component at all) *)
+Theorem C05_tok_hash_needed : forall (cfg kind : Type) (cfg_hash : cfg -> N) (tok_hash : list (tok kind) -> N)
+    (pattern_rel : text -> list (tok kind) -> cfg -> list clint)
+    (struct_pre struct_post : cfg -> doc kind -> list clint)
     (spell_on : cfg -> bool) (suggest : text -> list text)
     (spell_mk : text -> span -> list text -> clint)
-    (tok_hash : toks -> N) (h : list (op cfg toks (text * N * N))) (c0 : cfg),
-  hash_inj_on cfg toks cfg_hash (hist_triples cfg toks (text * N * N) h c0) ->
-  tok_hash_inj_on cfg toks tok_hash (hist_triples cfg toks (text * N * N) h c0) ->
-  exists st : state cfg (text * N * N),
-    run_hist cfg toks (text * N * N) fixed_key_eqb (fixed_key cfg_hash tok_hash) pattern_rel struct_pre struct_post spell_on suggest spell_mk h (fresh c0) = Ok (st, spec_hist cfg toks (text * N * N) pattern_rel struct_pre struct_post spell_on suggest spell_mk h c0) /\
-    fresh_hist cfg toks (text * N * N) fixed_key_eqb (fixed_key cfg_hash tok_hash) pattern_rel struct_pre struct_post spell_on suggest spell_mk h c0 = map Ok (spec_hist cfg toks (text * N * N) pattern_rel struct_pre struct_post spell_on suggest spell_mk h c0).
-Proof. exact fixed_refinement. Qed.
-Check C05_fixed_key_refinement : forall (cfg toks : Type) (cfg_hash : cfg -> N)
-    (pattern_rel : text -> toks -> cfg -> list clint)
-    (struct_pre struct_post : cfg -> doc toks -> list clint)
+    (ch : text) (t1 t2 : list (tok kind)) (c c0 : cfg),
+  tok_hash t1 = tok_hash t2 -> pattern_rel ch t1 c <> pattern_rel ch t2 c ->
+  let h := [SetCfg c; Lint (one_chunk kind ch t1) [] []; SetCfg c; Lint (one_chunk kind ch t2) [] []] in
+  exists (st : state cfg (text * N * N)) (o1 reused fresh_out : list clint),
+    run_hist cfg kind (text * N * N) code_key_eqb (code_key cfg_hash tok_hash) pattern_rel struct_pre struct_post spell_on suggest spell_mk h (fresh c0) = Ok (st, [o1; reused]) /\
+    fresh_hist cfg kind (text * N * N) code_key_eqb (code_key cfg_hash tok_hash) pattern_rel struct_pre struct_post spell_on suggest spell_mk h c0 = [Ok o1; Ok fresh_out] /\
+    reused <> fresh_out.
+Proof. exact code_needs_tok_hash. Qed.
+Check C05_tok_hash_needed : forall (cfg kind : Type) (cfg_hash : cfg -> N) (tok_hash : list (tok kind) -> N)
+    (pattern_rel : text -> list (tok kind) -> cfg -> list clint)
+    (struct_pre struct_post : cfg -> doc kind -> list clint)
     (spell_on : cfg -> bool) (suggest : text -> list text)
     (spell_mk : text -> span -> list text -> clint)
-    (tok_hash : toks -> N) (h : list (op cfg toks (text * N * N))) (c0 : cfg),
-  hash_inj_on cfg toks cfg_hash (hist_triples cfg toks (text * N * N) h c0) ->
-  tok_hash_inj_on cfg toks tok_hash (hist_triples cfg toks (text * N * N) h c0) ->
-  exists st : state cfg (text * N * N),
-    run_hist cfg toks (text * N * N) fixed_key_eqb (fixed_key cfg_hash tok_hash) pattern_rel struct_pre struct_post spell_on suggest spell_mk h (fresh c0) = Ok (st, spec_hist cfg toks (text * N * N) pattern_rel struct_pre struct_post spell_on suggest spell_mk h c0) /\
-    fresh_hist cfg toks (text * N * N) fixed_key_eqb (fixed_key cfg_hash tok_hash) pattern_rel struct_pre struct_post spell_on suggest spell_mk h c0 = map Ok (spec_hist cfg toks (text * N * N) pattern_rel struct_pre struct_post spell_on suggest spell_mk h c0).
-Print Assumptions C05_fixed_key_refinement.
+    (ch : text) (t1 t2 : list (tok kind)) (c c0 : cfg),
+  tok_hash t1 = tok_hash t2 -> pattern_rel ch t1 c <> pattern_rel ch t2 c ->
+  let h := [SetCfg c; Lint (one_chunk kind ch t1) [] []; SetCfg c; Lint (one_chunk kind ch t2) [] []] in
+  exists (st : state cfg (text * N * N)) (o1 reused fresh_out : list clint),
+    run_hist cfg kind (text * N * N) code_key_eqb (code_key cfg_hash tok_hash) pattern_rel struct_pre struct_post spell_on suggest spell_mk h (fresh c0) = Ok (st, [o1; reused]) /\
+    fresh_hist cfg kind (text * N * N) code_key_eqb (code_key cfg_hash tok_hash) pattern_rel struct_pre struct_post spell_on suggest spell_mk h c0 = [Ok o1; Ok fresh_out] /\
+    reused <> fresh_out.
+Print Assumptions C05_tok_hash_needed.
 
 (* ---------- non-vacuity ---------- *)
-(* a history whose hypotheses hold (one tokenisation throughout), non-trivially: the same clause at two
-   offsets of one document (2nd occurrence is a cache hit), then under another configuration, then again
-   under the first (hit from the first step unless evicted), a misspelt word twice, evictions in between *)
+(* a history whose hypotheses hold, non-trivially: documents built as the code builds them (doc_of: hull and
+   characters from the source); the same clause at two offsets of one document (the 2nd occurrence is a cache
+   hit, re-based), tokenised as plain text (0) and then — on the same linter — as Markdown (1), under another
+   configuration, then again under the first (hit from the first step unless evicted), a misspelt word twice,
+   evictions in between.  The Markdown step (3rd output) carries no lint inside the inline code although the
+   plain-text entry for the same characters and configuration is in the cache. *)
 Example C05_refinement_nonvacuous :
-  let d := ex_doc 0 in
-  let h := [SetCfg 1%N; Lint d [] []; SetCfg 0%N; Lint d [] [];
-            Evict (fun k => negb (N.eqb (snd k) 0)) (fun _ => false); SetCfg 1%N; Lint d [fun _ => true; fun _ => true; fun _ => false] []] in
-  hash_inj_on N N (fun c => c) (hist_triples N N (text * N) h 0%N) /\
-  chunk_fun_on N N ex_rel (hist_triples N N (text * N) h 0%N) /\
-  ex_outs (ex_run h (fresh 0%N)) =
+  hist_wf N N (text * N * N) ex_hist /\
+  hash_inj_on N N (fun c => c) (hist_triples N N (text * N * N) ex_hist 0%N) /\
+  tok_hash_inj_on N N ex_tok_hash (hist_triples N N (text * N * N) ex_hist 0%N) /\
+  ex_outs (ex_run ex_hist (fresh 0%N)) =
     [[(0, 0, 5%N); (4, 6, 3%N); (14, 16, 3%N); (1, 2, 7%N); (11, 12, 7%N)];
      [(0, 0, 5%N); (4, 6, 3%N); (14, 16, 3%N)];
+     [(0, 0, 5%N); (4, 6, 3%N); (14, 16, 3%N)];
      [(0, 0, 5%N); (4, 6, 3%N); (14, 16, 3%N); (1, 2, 7%N); (11, 12, 7%N)]] /\
-  map Ok (ex_spec h 0%N) = ex_fresh h 0%N.
+  map Ok (ex_spec ex_hist 0%N) = ex_fresh ex_hist 0%N.
 Proof.
-  cbv zeta. split; [|split; [|split; vm_compute; reflexivity]].
+  split; [|split; [|split; [|split; vm_compute; reflexivity]]].
+  - unfold ex_hist. cbn [hist_wf]. repeat split; apply ex_doc_wf.
   - intros x y Hx Hy. exact (fun e => e).
-  - intros ch t1 t2 c H1 H2.
-    assert (E : forall t, In (ch, t, c) (hist_triples N N (text * N)
-              [SetCfg 1%N; Lint (ex_doc 0) [] []; SetCfg 0%N; Lint (ex_doc 0) [] [];
-               Evict (fun k => negb (N.eqb (snd k) 0)) (fun _ => false); SetCfg 1%N;
-               Lint (ex_doc 0) [fun _ => true; fun _ => true; fun _ => false] []] 0%N) -> t = 0%N).
-    { intros t H. vm_compute in H. repeat (destruct H as [H|H]; [now inversion H|]). destruct H. }
-    now rewrite (E t1 H1), (E t2 H2).
+  - intros x y Hx Hy. vm_compute in Hx, Hy.
+    repeat (destruct Hx as [Hx|Hx]; [subst x|]); try destruct Hx;
+    repeat (destruct Hy as [Hy|Hy]; [subst y|]); try destruct Hy; vm_compute; intros E; try reflexivity; discriminate E.
 Qed.
 
-(* the shape of F11 in the model: the clause tokenised as plain text (0), then as Markdown (1), on one linter:
-   the reused linter serves the plain-text lint (1,2,7) for the Markdown document, a fresh linter does not;
-   with the key of fixes/F11.diff both agree *)
-Example C05_needs_chunk_fun_nonvacuous :
-  let h := [SetCfg 1%N; Lint (ex_doc 0) [] []; Lint (ex_doc 1) [] []] in
-  ex_rel [96; 98; 96]%N 0%N 1%N <> ex_rel [96; 98; 96]%N 1%N 1%N /\
-  nth 1 (ex_outs (ex_run h (fresh 0%N))) [] = [(0, 0, 5%N); (4, 6, 3%N); (14, 16, 3%N); (1, 2, 7%N); (11, 12, 7%N)] /\
-  nth 1 (ex_fresh h 0%N) (Panic PFuel) = Ok (nth 1 (ex_spec h 0%N) []) /\
+(* the hypotheses of the two converse theorems are satisfiable: with a token hash that collides for the two
+   tokenisations (here: constant), the Markdown document is served the plain-text lint *)
+Example C05_tok_hash_needed_nonvacuous :
+  let ch := [96; 98; 96]%N in
+  (fun _ : list (tok N) => 0%N) (ex_toks 0 0) = (fun _ : list (tok N) => 0%N) (ex_toks 0 1) /\
+  ex_rel ch (ex_toks 0 0) 1%N <> ex_rel ch (ex_toks 0 1) 1%N.
+Proof. cbv zeta. split; [reflexivity|vm_compute; discriminate]. Qed.
+
+(* HISTORY (regression witness, labelled): the shape of finding F11 with the key BEFORE commit a050122
+   (code_key_old: characters and config hash only).  The clause tokenised as plain text, then as Markdown, on
+   one linter: the reused linter served the plain-text lints (1,2,7), (11,12,7) for the Markdown document, the
+   specification (= a fresh linter) has none; with the current key (ex_run) both agree. *)
+Example C05_old_key_refuted :
+  let h_old : list (op N N (text * N)) := [SetCfg 1%N; Lint (ex_doc 0) [] []; Lint (ex_doc 1) [] []] in
+  let h : list (op N N (text * N * N)) := [SetCfg 1%N; Lint (ex_doc 0) [] []; Lint (ex_doc 1) [] []] in
+  nth 1 (ex_outs (ex_run_old h_old (fresh 0%N))) [] = [(0, 0, 5%N); (4, 6, 3%N); (14, 16, 3%N); (1, 2, 7%N); (11, 12, 7%N)] /\
   map (fun l => (sstart (cl_span l), send (cl_span l), cl_body l)) (nth 1 (ex_spec h 0%N) []) = [(0, 0, 5%N); (4, 6, 3%N); (14, 16, 3%N)] /\
-  nth 1 (ex_outs (ex_run_fixed [SetCfg 1%N; Lint (ex_doc 0) [] []; Lint (ex_doc 1) [] []] (fresh 0%N))) [] = [(0, 0, 5%N); (4, 6, 3%N); (14, 16, 3%N)].
-Proof. cbv zeta. split; [vm_compute; discriminate|]. repeat split; vm_compute; reflexivity. Qed.
+  nth 1 (ex_fresh h 0%N) (Panic PFuel) = Ok (nth 1 (ex_spec h 0%N) []) /\
+  nth 1 (ex_outs (ex_run h (fresh 0%N))) [] = [(0, 0, 5%N); (4, 6, 3%N); (14, 16, 3%N)].
+Proof. cbv zeta. repeat split; vm_compute; reflexivity. Qed.
